@@ -542,3 +542,174 @@ package rtcp
 //@   loop 1
 //@     invariant 0 <= iter() && iter() <= len(p.Nacks)
 //@     decreases len(p.Nacks) - iter()
+
+// ===================================================================================================
+// raw_packet.go
+// ===================================================================================================
+
+//@ func (r RawPacket) Marshal() (result []byte, err error)
+//@   safety[C09]
+//@   ensures[C03,C05,C08] same: err == nil && sameSlice(result, r)
+
+//@ func (r *RawPacket) Unmarshal(b []byte) (err error)
+//@   safety[C01]
+//@   modifies *r
+//@   nocap
+//@   allocates[C01] 0
+//@   ensures[C04,C07] ok: (err == nil) <==> (len(b) >= 4 && b[0]>>6 == 2)
+//@   ensures[C04,C06,C07] verbatim: err == nil ==> sameSlice(*r, b)
+
+//@ func (r RawPacket) Header() (result Header)
+//@   safety[C09,C17]
+//@   ensures[C05] hdr: len(r) >= 4 && r[0]>>6 == 2 ==> result == Header{Padding: r[0]>>5&1 == 1, Count: r[0]&31, Type: PacketType(r[1]), Length: be16(r, 2)}
+
+//@ func (r *RawPacket) DestinationSSRC() (result []uint32)
+//@   safety[C09,C10]
+//@   fresh
+//@   ensures[C10] none: len(result) == 0
+
+//@ func (r RawPacket) MarshalSize() (result int)
+//@   safety[C09,C17]
+//@   ensures size: result == len(r)
+
+//@ func (r RawPacket) String() (result string)
+//@   safety[C17]
+
+// ===================================================================================================
+// source_description.go
+// ===================================================================================================
+
+//@ func specItemsLen(items []SourceDescriptionItem, n int) (result int)
+//@   rec
+
+//@ func specChunksLen(cs []SourceDescriptionChunk, n int) (result int)
+//@   rec
+
+//@ func (s SourceDescriptionItem) Len() (result int)
+//@   safety[C01,C09,C17]
+//@   allocates[C01] len(s.Text)
+//@   ensures size: result == 2 + len(s.Text)
+
+//@ func (s SourceDescriptionItem) Marshal() (result []byte, err error)
+//@   safety[C09]
+//@   fresh
+//@   ensures[C08] ok: (err == nil) <==> specItemOK(s)
+//@   ensures[C08] nobytes: err != nil ==> len(result) == 0
+//@   ensures[C03,C05] size: err == nil ==> len(result) == 2 + len(s.Text)
+//@   ensures[C03] head: err == nil ==> result[0] == uint8(s.Type) && result[1] == uint8(len(s.Text))
+//@   ensures[C03] text: forall k :: err == nil && 0 <= k && k < len(s.Text) ==> result[2+k] == s.Text[k]
+
+//@ func (s *SourceDescriptionItem) Unmarshal(rawPacket []byte) (err error)
+//@   safety[C01]
+//@   modifies *s
+//@   nocap
+//@   allocates[C01] ite(len(rawPacket) >= 2 && 2+int(rawPacket[1]) <= len(rawPacket), int(rawPacket[1]), 0)
+//@   ensures[C01,C04] ok: (err == nil) <==> (len(rawPacket) >= 2 && 2+int(rawPacket[1]) <= len(rawPacket))
+//@   ensures[C04] fields: err == nil ==> uint8(s.Type) == rawPacket[0] && len(s.Text) == int(rawPacket[1])
+//@   ensures[C04] text: forall k :: err == nil && 0 <= k && k < len(s.Text) ==> s.Text[k] == rawPacket[2+k]
+
+//@ func (s SourceDescriptionChunk) len() (result int)
+//@   safety[C01,C09,C17]
+//@   mathint
+//@   allocates[C01] specItemsLen(s.Items, len(s.Items))
+//@   ensures size: result == specChunkLen(s)
+//@   ensures atleast: result >= 8 && result%4 == 0
+//@   loop 1
+//@     invariant 0 <= iter() && iter() <= len(s.Items) && chunkLen == 4 + specItemsLen(s.Items, iter()) && chunkLen >= 4
+//@     invariant[C01] allocated() <= specItemsLen(s.Items, iter())
+//@     decreases len(s.Items) - iter()
+
+//@ func (s SourceDescriptionChunk) Marshal() (result []byte, err error)
+//@   safety[C09]
+//@   fresh
+//@   mathint
+//@   ensures[C08] items: forall k :: err == nil && 0 <= k && k < len(s.Items) ==> specItemOK(s.Items[k])
+//@   ensures[C08] complete: exists k :: err != nil ==> 0 <= k && k < len(s.Items) && !specItemOK(s.Items[k])
+//@   ensures[C08] nobytes: err != nil ==> len(result) == 0
+//@   ensures[C03,C05] size: err == nil ==> len(result) == specChunkLen(s)
+//@   ensures[C03] source: err == nil ==> be32(result, 0) == s.Source
+//@   ensures[C03] terminated: err == nil ==> result[4+specItemsLen(s.Items, len(s.Items))] == 0
+//@   loop 1
+//@     invariant 0 <= iter() && iter() <= len(s.Items) && len(rawPacket) == 4 + specItemsLen(s.Items, iter()) && len(rawPacket) >= 4
+//@     invariant[C03] be32(rawPacket, 0) == s.Source
+//@     invariant[C08] forall k :: 0 <= k && k < iter() ==> specItemOK(s.Items[k])
+//@     decreases len(s.Items) - iter()
+
+//@ func (s *SourceDescriptionChunk) Unmarshal(rawPacket []byte) (err error)
+//@   safety[C01]
+//@   modifies *s
+//@   nocap
+//@   allocates[C01] min(12*specChunkLen(*s), 12*len(rawPacket))
+//@   ensures[C01,C04] fits: err == nil ==> len(rawPacket) >= 5 && 4 + specItemsLen(s.Items, len(s.Items)) + 1 <= len(rawPacket)
+//@   ensures[C04] source: err == nil ==> s.Source == be32(rawPacket, 0)
+//@   ensures[C04] terminator: err == nil ==> rawPacket[4+specItemsLen(s.Items, len(s.Items))] == 0
+//@   ensures[C04] heads: forall k :: err == nil && 0 <= k && k < len(s.Items) ==> uint8(s.Items[k].Type) == rawPacket[4+specItemsLen(s.Items, k)] && len(s.Items[k].Text) == int(rawPacket[4+specItemsLen(s.Items, k)+1]) && s.Items[k].Type != SDESEnd
+//@   loop 1
+//@     invariant 4 <= i && i <= len(rawPacket) && i == 4 + specItemsLen(s.Items, len(s.Items)) && unchanged(s.Source)
+//@     invariant[C04] forall k :: 0 <= k && k < len(s.Items) ==> uint8(s.Items[k].Type) == rawPacket[4+specItemsLen(s.Items, k)] && len(s.Items[k].Text) == int(rawPacket[4+specItemsLen(s.Items, k)+1]) && s.Items[k].Type != SDESEnd
+//@     invariant[C01] allocated() <= 12*(i-4)
+//@     decreases len(rawPacket) - i
+
+//@ func (s *SourceDescription) MarshalSize() (result int)
+//@   safety[C09,C17]
+//@   mathint
+//@   ensures size: result == 4 + specChunksLen(s.Chunks, len(s.Chunks))
+//@   ensures aligned: result%4 == 0 && result >= 4
+//@   loop 1
+//@     invariant 0 <= iter() && iter() <= len(s.Chunks) && chunksLength == specChunksLen(s.Chunks, iter()) && chunksLength%4 == 0 && chunksLength >= 0
+//@     decreases len(s.Chunks) - iter()
+
+//@ func (s *SourceDescription) Header() (result Header)
+//@   safety[C09,C17]
+//@   mathint
+//@   ensures hdr: result == Header{Padding: false, Count: uint8(len(s.Chunks)), Type: TypeSourceDescription, Length: uint16((4+specChunksLen(s.Chunks, len(s.Chunks)))/4 - 1)}
+
+//@ func (s SourceDescription) Marshal() (result []byte, err error)
+//@   safety[C09]
+//@   fresh
+//@   mathint
+//@   requires[C09] bounded: specChunksLen(s.Chunks, len(s.Chunks)) <= 1<<40
+//@   ensures[C08] count: err == nil ==> len(s.Chunks) <= 31
+//@   ensures[C08] nobytes: err != nil ==> len(result) == 0
+//@   ensures[C03,C05] size: err == nil ==> len(result) == 4 + specChunksLen(s.Chunks, len(s.Chunks))
+//@   ensures[C05] aligned: err == nil ==> len(result)%4 == 0
+//@   ensures[C03,C05,C07] header: err == nil && len(result) <= 4*65536 ==> be32(result, 0) == specHeaderWord(false, uint8(len(s.Chunks)), 202, uint16(len(result)/4-1))
+//@   loop 1
+//@     invariant 0 <= iter() && iter() <= len(s.Chunks) && chunkOffset == specChunksLen(s.Chunks, iter()) && chunkOffset >= 0
+//@     decreases len(s.Chunks) - iter()
+
+//@ func (s *SourceDescription) Unmarshal(rawPacket []byte) (err error)
+//@   safety[C01]
+//@   modifies *s
+//@   nocap
+//@   mathint
+//@   allocates[C01] 64 + 20*len(rawPacket)
+//@   ensures[C07] type: err == nil ==> rawPacket[1] == 202 && rawPacket[0]>>6 == 2
+//@   ensures[C04] count: err == nil ==> len(s.Chunks) == int(rawPacket[0]&31)
+//@   ensures[C04] inflated: len(rawPacket) >= 4 && 4+8*int(rawPacket[0]&31)-3 > len(rawPacket) ==> err != nil
+//@   loop 1
+//@     invariant 4 <= i && 4 + 8*len(s.Chunks) <= i && i <= len(rawPacket) + 3
+//@     invariant[C01] allocated() <= 20*(i-4)
+//@     decreases len(rawPacket) - i
+
+//@ func (s *SourceDescription) DestinationSSRC() (result []uint32)
+//@   safety[C09,C10]
+//@   fresh
+//@   ensures[C10] n: len(result) == len(s.Chunks)
+//@   ensures[C10] sources: forall k :: 0 <= k && k < len(s.Chunks) ==> result[k] == s.Chunks[k].Source
+//@   loop 1
+//@     invariant 0 <= iter() && iter() <= len(s.Chunks)
+//@     invariant[C10] forall k :: 0 <= k && k < iter() ==> out[k] == s.Chunks[k].Source
+//@     decreases len(s.Chunks) - iter()
+
+//@ func (s *SourceDescription) String() (result string)
+//@   safety[C17]
+//@   loop 1
+//@     invariant 0 <= iter() && iter() <= len(s.Chunks)
+//@     decreases len(s.Chunks) - iter()
+
+//@ func (s SDESType) String() (result string)
+//@   safety[C17]
+
+//@ func (p PacketType) String() (result string)
+//@   safety[C17]
